@@ -336,3 +336,129 @@ Proof.
   destruct (child_entry p (Hc _ _ Hin) H1 H2) as (y & Py & -> & Eb). rewrite Eb in H3. subst y. eauto.
 Qed.
 End Layers.
+
+(* ------------------------------------------------------------------ lookups after a rename *)
+Lemma fs_get_move_out F a b q :
+  (forall e, In e F -> at_or_under a (fst e) = true -> b ++ rel_suffix a (fst e) <> q) ->
+  at_or_under a q = false -> fs_get (map (move_entry a b) F) q = fs_get F q.
+Proof.
+  induction F as [|[p m] r IH]; cbn [map fs_get]; intros H Hq; [reflexivity|].
+  assert (IH' : fs_get (map (move_entry a b) r) q = fs_get r q).
+  { apply IH; [intros e He; apply H; now right|exact Hq]. }
+  unfold move_entry at 1. cbn [fst snd]. destruct (at_or_under a p) eqn:E; cbn [fs_get].
+  - assert (beq (b ++ rel_suffix a p) q = false) as ->.
+    { apply beq_false. apply (H (p, m)); [now left|exact E]. }
+    assert (beq p q = false) as -> by (apply beq_false; intros ->; congruence).
+    exact IH'.
+  - destruct (beq p q); [reflexivity|exact IH'].
+Qed.
+Lemma fs_get_move_in F a b p : at_or_under a p = true ->
+  (forall e, In e F -> at_or_under a (fst e) = true ->
+     b ++ rel_suffix a (fst e) = b ++ rel_suffix a p -> fst e = p) ->
+  (forall e, In e F -> at_or_under a (fst e) = false -> fst e <> b ++ rel_suffix a p) ->
+  fs_get (map (move_entry a b) F) (b ++ rel_suffix a p) = fs_get F p.
+Proof.
+  intros Hp. induction F as [|[p' m] r IH]; cbn [map fs_get]; intros H1 H2; [reflexivity|].
+  assert (IH' : fs_get (map (move_entry a b) r) (b ++ rel_suffix a p) = fs_get r p).
+  { apply IH; [intros e He; apply H1; now right|intros e He; apply H2; now right]. }
+  unfold move_entry at 1. cbn [fst snd]. destruct (at_or_under a p') eqn:E; cbn [fs_get].
+  - destruct (beq (b ++ rel_suffix a p') (b ++ rel_suffix a p)) eqn:E2.
+    + apply beq_true in E2. assert (p' = p) as -> by (apply (H1 (p', m)); [now left|exact E|exact E2]).
+      now rewrite beq_refl.
+    + assert (beq p' p = false) as ->; [|exact IH']. apply beq_false. intros ->. now rewrite beq_refl in E2.
+  - assert (beq p' (b ++ rel_suffix a p) = false) as ->.
+    { apply beq_false. apply (H2 (p', m)); [now left|exact E]. }
+    assert (beq p' p = false) as -> by (apply beq_false; intros ->; congruence).
+    exact IH'.
+Qed.
+Lemma fs_get_move_src F a b q : at_or_under a q = true ->
+  (forall e, In e F -> at_or_under a (fst e) = true -> b ++ rel_suffix a (fst e) <> q) ->
+  fs_get (map (move_entry a b) F) q = None.
+Proof.
+  intros Hq H. apply fs_get_None. intros n Hin. apply in_map_iff in Hin as ([p m] & E & Hin).
+  unfold move_entry in E. cbn [fst snd] in E. destruct (at_or_under a p) eqn:Ea.
+  - injection E as E _. apply (H (p, m) Hin Ea E).
+  - injection E as -> _. congruence.
+Qed.
+
+Lemma move_target cs bs r : plains cs -> plains r -> bs <> [] ->
+  pa bs ++ rel_suffix (pa cs) (pa (cs ++ r)) = pa (bs ++ r).
+Proof.
+  intros Hc Hr Hb. rewrite rel_suffix_pa by assumption. rewrite (pa_rel bs Hb).
+  destruct r as [|x r']; [cbn [rel]; now rewrite !app_nil_r, pa_rel|].
+  now rewrite pa_app_ne by discriminate.
+Qed.
+
+Section Rename.
+Variables (cs bs : list bytes).
+Hypothesis Hcs : plains cs.
+Hypothesis Hbs : plains bs.
+Hypothesis Hbne : bs <> [].
+
+Lemma move_clean F : fs_clean F -> fs_clean (map (move_entry (pa cs) (pa bs)) F).
+Proof.
+  intros HF p n Hin. apply in_map_iff in Hin as ([q m] & E & Hin). unfold move_entry in E. cbn [fst snd] in E.
+  pose proof (HF _ _ Hin) as Hq. destruct (at_or_under (pa cs) q) eqn:Ea.
+  - injection E as <- _. apply clean_abs_repr in Hq as (qs & Pq & ->).
+    apply at_or_under_pa in Ea as (r & ->); auto. apply plains_app in Pq as [_ Pr].
+    rewrite move_target by assumption. apply clean_abs_repr. exists (bs ++ r). split; [|reflexivity].
+    apply plains_app. now split.
+  - injection E as <- _. exact Hq.
+Qed.
+
+(* the entry at the source shows up at the target *)
+Lemma rename_get_target F r : fs_clean F -> plains r ->
+  (forall e, In e F -> fst e <> pa (bs ++ r)) ->
+  fs_get (map (move_entry (pa cs) (pa bs)) F) (pa (bs ++ r)) = fs_get F (pa (cs ++ r)).
+Proof.
+  intros HF Pr Hno. rewrite <- (move_target cs bs r) by assumption.
+  apply fs_get_move_in.
+  - apply at_or_under_pa; auto. { apply plains_app. now split. } now exists r.
+  - intros [q m] Hin Ea E. cbn [fst] in *. pose proof (HF _ _ Hin) as Hq.
+    apply clean_abs_repr in Hq as (qs & Pq & ->). apply at_or_under_pa in Ea as (r' & ->); auto.
+    apply plains_app in Pq as [_ Pr']. rewrite !move_target in E by assumption.
+    apply pa_inj in E; [|apply plains_app; now split|apply plains_app; now split].
+    apply app_inv_head in E. now subst.
+  - intros e Hin _. rewrite move_target by assumption. now apply Hno.
+Qed.
+(* nothing is left at or below the source (the target is not below the source) *)
+Lemma rename_get_source F q : fs_clean F -> at_or_under (pa cs) q = true ->
+  (forall r, plains r -> at_or_under (pa cs) (pa (bs ++ r)) = false) ->
+  fs_get (map (move_entry (pa cs) (pa bs)) F) q = None.
+Proof.
+  intros HF Hq Hdis. apply fs_get_move_src; [exact Hq|].
+  intros [p m] Hin Ea E. cbn [fst] in *. pose proof (HF _ _ Hin) as Hp.
+  apply clean_abs_repr in Hp as (ps & Pp & ->). apply at_or_under_pa in Ea as (r & ->); auto.
+  apply plains_app in Pp as [_ Pr]. rewrite move_target in E by assumption. subst q.
+  rewrite Hdis in Hq by exact Pr. discriminate.
+Qed.
+(* elsewhere nothing changes *)
+Lemma rename_get_other F q : fs_clean F -> at_or_under (pa cs) q = false -> at_or_under (pa bs) q = false ->
+  fs_get (map (move_entry (pa cs) (pa bs)) F) q = fs_get F q.
+Proof.
+  intros HF Hq1 Hq2. apply fs_get_move_out; [|exact Hq1].
+  intros [p m] Hin Ea E. cbn [fst] in *. pose proof (HF _ _ Hin) as Hp.
+  apply clean_abs_repr in Hp as (ps & Pp & ->). apply at_or_under_pa in Ea as (r & ->); auto.
+  apply plains_app in Pp as [_ Pr]. rewrite move_target in E by assumption. subst q.
+  assert (at_or_under (pa bs) (pa (bs ++ r)) = true); [|congruence].
+  apply at_or_under_pa; auto. { apply plains_app. now split. } now exists r.
+Qed.
+End Rename.
+
+Definition closed (f : fsT) : Prop :=
+  forall p n, In (p, n) f -> p <> root -> fs_get f (pathdir p) = Some Dir.
+Lemma closed_none f ds : closed f -> plains ds -> fs_get f (pa ds) = None ->
+  forall r, plains r -> fs_get f (pa (ds ++ r)) = None.
+Proof.
+  intros HC Pd Hn r. induction r as [|x r IH] using rev_ind; intros Pr; [now rewrite app_nil_r|].
+  apply plains_app in Pr as [Pr Px]. inversion Px as [|? ? Px' _]; subst.
+  destruct (fs_get f (pa (ds ++ r ++ [x]))) as [m|] eqn:E; [|reflexivity]. exfalso.
+  apply fs_get_In in E.
+  assert (Hnr : pa (ds ++ r ++ [x]) <> root).
+  { intros E2. apply (pa_root_iff (ds ++ r ++ [x])) in E2.
+    - destruct ds; [destruct r|]; discriminate.
+    - apply plains_app. split; [exact Pd|]. apply plains_app. split; [exact Pr|exact Px]. }
+  pose proof (HC _ _ E Hnr) as E3.
+  rewrite app_assoc, pathdir_pa in E3; [|apply plains_app; now split|exact Px'].
+  rewrite IH in E3 by exact Pr. discriminate.
+Qed.
